@@ -646,6 +646,29 @@ func (env *SpecEnv) call(x *SExpr) (sval, error) {
 			return sval{}, err
 		}
 		return sval{app(SInt, "rune_count", s.t), types.Typ[types.Int]}, nil
+	case "boundary":
+		// p is the byte offset of the start of a character of s (as range visits them)
+		a, err := env.eval(args[0])
+		if err != nil {
+			return sval{}, err
+		}
+		b, err := env.eval(args[1])
+		if err != nil {
+			return sval{}, err
+		}
+		declareBoundary(e.U)
+		return sval{app(SBool, "boundary", a.t, env.f.asInt(b.t)), types.Typ[types.Bool]}, nil
+	case "containsrune":
+		a, err := env.eval(args[0])
+		if err != nil {
+			return sval{}, err
+		}
+		b, err := env.eval(args[1])
+		if err != nil {
+			return sval{}, err
+		}
+		e.U.declareFun("str.contains.Rune", []Sort{SStr, SInt}, SBool)
+		return sval{app(SBool, "str.contains.Rune", a.t, env.f.asInt(b.t)), types.Typ[types.Bool]}, nil
 	case "parseint", "parseok":
 		// strconv.ParseInt(s, 0, 0): the value of a C-style constant / whether it is one
 		v, err := env.eval(args[0])
@@ -1049,4 +1072,14 @@ func (f *Frame) evalInvariant(cl *Clause, li *loopInfo, phiEnv map[*ssa.Phi]Term
 		return Term{}
 	}
 	return v.t
+}
+
+func declareBoundary(u *Universe) {
+	if _, ok := u.funs["boundary"]; ok {
+		return
+	}
+	u.declareFun("boundary", []Sort{SStr, SInt}, SBool)
+	u.axiom("(assert (forall ((s Str)) (! (boundary s 0) :pattern ((boundary s 0)))))", "boundary")
+	u.axiom("(assert (forall ((s Str) (p Int)) (! (=> (and (boundary s p) (<= 0 p) (< p (slen s))) (boundary s (+ p (width_at s p)))) :pattern ((width_at s p)))))", "boundary")
+	u.axiom("(assert (forall ((s Str) (p Int) (q Int)) (! (=> (and (boundary s p) (< p q) (< q (+ p (width_at s p)))) (not (boundary s q))) :pattern ((boundary s q) (width_at s p)))))", "boundary")
 }
